@@ -11,7 +11,7 @@ from mzverif import core
 from mzverif import gen as G
 from mzverif import lib as L
 from mzverif import model as M
-from mzverif.core import Sub, call, require
+from mzverif.core import Sub, call, require, scribble
 
 ID = "C10"
 LEVEL = "exploration"
@@ -71,6 +71,7 @@ def check(case: dict):
                     require(L.as_cells(back.solution) == [tuple(q) for q in sol], f"{sig}:{nm}:solution",
                             f"read back {L.as_cells(back.solution)}, expected {sol}; bits={g['cl']}")
             labels.append("round-trip")
+        scribble(img)
     E = M.n_edges(g)
     nt = 0 < E < len(M.lattice_edges(r, c)) and kind != "lattice" and len(sol) >= 3
     return {"nt": nt, "labels": labels}
